@@ -10,6 +10,17 @@ from pathlib import Path
 from common import SPEC, MachineryError, TlcResult, parse_tla, run_tlc, tla_chunks
 
 
+def json_lines(txt: str, tag: str, limit: int | None = None, rng=None) -> list:
+    """Values printed by PrintT(tag \\o ToJson(v)): one quoted TLA+ string per line (optionally a seeded sample of them)."""
+    import json
+    pre = '"' + tag
+    lines = [line for line in txt.splitlines() if line.startswith(pre)]
+    json_lines.last_total = len(lines)
+    if limit is not None and rng is not None and len(lines) > limit:
+        lines = rng.sample(lines, limit)
+    return [json.loads(json.loads(line)[len(tag):]) for line in lines]
+
+
 def tla_set(xs) -> str:
     return "{" + ", ".join('"%s"' % x if isinstance(x, str) else str(x) for x in xs) + "}"
 
@@ -51,14 +62,13 @@ def schedules(r: TlcResult):
             cfgs[c["id"]] = c
     out = []
     seen = set()
-    for ch in tla_chunks(r.out, "SCHED"):
-        _, cid, status, hist = parse_tla(ch)
-        h = [[e["a"], e["x"]] for e in hist]
-        key = (cid, tuple(map(tuple, h)))
+    for o in json_lines(r.out, "SCHED"):
+        h = [[e["a"], e["x"]] for e in o["h"]]
+        key = (o["c"], tuple(map(tuple, h)))
         if key in seen:
             continue
         seen.add(key)
-        out.append((cid, status, h))
+        out.append((o["c"], o["st"], h))
     if not cfgs:
         raise MachineryError("no CFGS line in TLC output: " + r.out[-1500:])
     return cfgs, out
@@ -87,3 +97,32 @@ def cfg_tla(over: dict) -> str:
 
 def cfgs_tla(overs: list[dict]) -> str:
     return "Numbered({" + ",\n  ".join(cfg_tla(o) for o in overs) + "})"
+
+
+# ---- the adversarial single-handler model spec/Solo.tla ----
+def run_solo(wd: Path, name: str, side: str, cfgs: str, cats, depth: int, props, allowed=(), pre=(), emit: bool = True,
+             workers: int | str = 16, timeout: int = 3600, heap: str = "8g") -> TlcResult:
+    mod = f"MCs_{name}"
+    (wd / f"{mod}.tla").write_text(
+        f"---- MODULE {mod} ----\nEXTENDS MC_Solo\nTheCfgs == {cfgs}\nTheProps == <<{', '.join(chr(34) + p + chr(34) for p in props)}>>\n"
+        f"TheAllowed == {{{', '.join('<<%s, %s>>' % (chr(34) + a + chr(34), chr(34) + b + chr(34)) for a, b in allowed)}}}\n"
+        + "ThePre == <<" + ", ".join(tla_set(x) for x in pre) + ">>\n"
+        + ("ASSUME PrintCfgs(TheCfgs)\n" if emit else "") + "====\n")
+    cfg = ["SPECIFICATION Spec", "CONSTANTS", f'  Side = "{side}"', "  Pre <- ThePre", "  Cfgs <- TheCfgs", f"  Depth = {depth}", "  Props <- TheProps",
+           "  Allowed <- TheAllowed", f"  Emit = {'TRUE' if emit else 'FALSE'}", f"  Cats = {tla_set(cats)}", "  InputsOf <- Inputs",
+           "INVARIANT NoViolation"] + (["INVARIANT EmitSeq"] if emit else []) + ["CHECK_DEADLOCK FALSE"]
+    (wd / f"{mod}.cfg").write_text("\n".join(cfg) + "\n")
+    r = run_tlc(mod, f"{mod}.cfg", wd=wd, workers=workers, timeout=timeout, specdir=wd, lib=SPEC, heap=heap)
+    if r.error and not r.violated and "TLC-TIMEOUT" not in r.out:
+        raise MachineryError(f"TLC failed on {mod}: " + r.out[-2500:])
+    return r
+
+
+def solo_sequences(r: TlcResult, limit: int | None = None, rng=None):
+    cfgs = {}
+    for ch in tla_chunks(r.out, "CFGS"):
+        for c in parse_tla(ch)[1]:
+            cfgs[c["id"]] = c
+    seqs = [(o["c"], o["ins"]) for o in json_lines(r.out, "SOLO", limit, rng)]
+    viol = [parse_tla(ch) for ch in tla_chunks(r.out, "MODELVIOLATION")]
+    return cfgs, seqs, viol
